@@ -146,7 +146,7 @@ theorem noConcat_noTouch (inBr : Bool) : ∀ (x : Expr), hasConcat x = false →
   | .axis .., _ => by simp [concatTouchesBrackets]
   | .flat i _ _, h => by simp only [concatTouchesBrackets]; exact noConcat_noTouch inBr i (by simpa [hasConcat] using h)
   | .ellipsis i _ _ _, h => by simp only [concatTouchesBrackets]; exact noConcat_noTouch inBr i (by simpa [hasConcat] using h)
-  | .brackets _ _ _, _ => by simp [concatTouchesBrackets]
+  | .brackets i _ _, h => by simp only [concatTouchesBrackets]; exact noConcat_noTouch true i (by simpa [hasConcat] using h)
   | .concat .., h => by simp [hasConcat] at h
   | .list cs _ _, h => by simp only [concatTouchesBrackets]; exact noConcat_noTouchL inBr cs (by simpa [hasConcat] using h)
   | .args cs _ _, h => by simp only [concatTouchesBrackets]; exact noConcat_noTouchL inBr cs (by simpa [hasConcat] using h)
